@@ -56,7 +56,14 @@ def _inl(tokens) -> tuple:
             res.append(x)
     fin = []
     for x in res:
-        if x[0] == "T":
+        if x[0] == "IMG":
+            # the alternative text of an image is prose: same treatment as text
+            alt = norm_ws(x[3])
+            if PANGU_RE is not None:
+                alt = re.sub(PANGU_RE, " ", alt)
+            alt = re.sub(r"(?<=[⺀-鿿]) (?=[A-Za-z0-9])|(?<=[A-Za-z0-9]) (?=[⺀-鿿])", "", alt)
+            fin.append(("IMG", x[1], x[2], alt))
+        elif x[0] == "T":
             s = x[1]
             # the deliberate CJK/Latin space: compare text with that boundary space removed on both sides
             s = norm_ws(s)
